@@ -214,3 +214,10 @@ Theorem C03_votes_and_commits_extend_own_chain :
              ProofsValidate.valid_extension (st h) (dec b)).
 Proof. exact ProofsExtension.votes_and_commits_extend_own_chain. Qed.
 Print Assumptions C03_votes_and_commits_extend_own_chain.
+
+(** The decision-critical functions of the anchored code have exactly the decisions the source tie knows about
+    (go2coq manifests, regenerated from /repo on every check; statement in SourceManifest.v). *)
+From Kardia Require Import C03.SourceManifest.
+Theorem C03_source_manifest : C03_source_manifest_statement.
+Proof. exact C03_source_manifest_proof. Qed.
+Print Assumptions C03_source_manifest.
